@@ -1686,7 +1686,9 @@ def forests(n: int):
         yield from rec([0])
 
 
-def forest_sprite(levels: List[int], flags: List[int], rng: random.Random) -> dict:
+def forest_sprite(levels: List[int], flags: List[int], rng: random.Random, late: Optional[int] = None) -> dict:
+    """`late`: the layers from this index on have no cel in frame 0 (a stored cel in frame 1 instead), so that their layer chunks
+    can be written in frame 1 (encoding choice "late_layers")"""
     n = len(levels)
     layers = []
     cels = {}
@@ -1695,7 +1697,7 @@ def forest_sprite(levels: List[int], flags: List[int], rng: random.Random) -> di
     H = max(1, -(-n // W))
     for i in range(n):
         group = i + 1 < n and levels[i + 1] > levels[i]
-        layers.append({"flags": flags[i], "ltype": 1 if group else 0, "level": levels[i], "blend": 0, "opacity": 255, "name": "L%d" % i,
+        layers.append({"flags": flags[i], "ltype": 1 if group else 0, "level": levels[i], "blend": rng.choice([0, 0, 0, 1, 2, 16, 18]), "opacity": 255, "name": "L%d" % i,
                        "tileset": 0, "ud": None, "default_w": 0, "default_h": 0})
         if not group:
             if rng.random() < 0.3:
@@ -1708,7 +1710,10 @@ def forest_sprite(levels: List[int], flags: List[int], rng: random.Random) -> di
     tilesets = [{"id": 0, "count": 2, "tw": 1, "th": 1, "base": 1, "name": "t", "ext": None, "empty0": True, "pixels": [(0, 0, 0, 0), (200, 100, 50, 255)]}]
     # a second frame in which every leaf holds a LINKED cel (to its cel of frame 0): visibility applies to those like to any cel
     for (f0, i) in list(cels):
-        cels[(1, i)] = {"kind": "linked", "frame": 0, "x": 0, "y": 0, "opacity": 255, "ud": None}
+        if late is not None and i >= late:
+            cels[(1, i)] = cels.pop((0, i))
+        else:
+            cels[(1, i)] = {"kind": "linked", "frame": 0, "x": 0, "y": 0, "opacity": 255, "ud": None}
     return {"width": W, "height": H, "depth": 32, "transparent": 0, "durations": [100, 100], "speed": 100, "palette_chunks": [],
             "palette": None, "sprite_ud": None, "ext_files": [], "tilesets": tilesets if any(l["ltype"] == 2 for l in layers) else [],
             "layers": layers, "cels": cels, "tags": [], "has_tags_chunk": False, "slices": []}
@@ -1854,6 +1859,17 @@ def check_C09(tier: str, seed: int) -> int:
             lv = gen.gen_levels(rng, n)
             s = forest_sprite(lv, [rng.randrange(128) for _ in range(n)], rng)
             cases.append((s, gen.encode(s, gen.random_choices(rng) if len(cases) % 2 else None, rng)))
+        # forests whose LAST layer chunks are stored in the second frame (nothing requires layer chunks to sit in the first one):
+        # their parents are looked for among all the layers before them, wherever those were stored
+        for _ in range(120 if tier == "quick" else 1500):
+            n = rng.randint(2, 12)
+            lv = gen.gen_levels(rng, n)
+            late = rng.randint(1, n - 1)
+            s = forest_sprite(lv, [rng.choice([1, 1, 0]) | (rng.randrange(64) << 1) for _ in range(n)], rng, late=late)
+            ch = gen.random_choices(rng) if rng.random() < 0.5 else gen.default_choices()
+            ch["late_layers"] = late
+            ch["shuffle_cels"] = False
+            cases.append((s, gen.encode(s, ch, rng)))
         # deep chains on a 2 MiB thread, hidden root / visible root
         for depth, root in ((20000, 1), (20000, 0), (65535 if tier != "quick" else 30000, 1)):
             lv = list(range(depth))
